@@ -242,6 +242,13 @@ MACRO_FN = {
 }
 
 
+# R10 table: (function key, exact source text) -> replacement
+EXPR_WRAPPERS = {
+    # str byte slicing has no Verus specification; std panics unless 1 is a char boundary
+    ('parse_terms.rs::parse_term', '&s[1..]'): 'str_skip_first_byte(s)',
+}
+
+
 def norm_ws(s):
     return re.sub(r'\s+', ' ', s).strip()
 
@@ -400,6 +407,42 @@ class FnEmitter:
                             edits.append((toks[j2].end, toks[j2].end, '&(', None))
                             edits.append((toks[cl].start, toks[cl].start, ')', None))
                             self.counts['R5'] = self.counts.get('R5', 0) + 1
+            k += 1
+
+        # R10: expression wrappers -- an expression for which Verus has no specification is wrapped,
+        # verbatim, into an external function whose `requires` is the expression's panic condition
+        # (table EXPR_WRAPPERS; each entry is keyed by function and exact text).
+        for (wfn, wtext), wrep in EXPR_WRAPPERS.items():
+            if wfn != key:
+                continue
+            body_text = text[toks[bopen].end:toks[bclose].start]
+            pos = body_text.find(wtext)
+            while pos >= 0:
+                a0 = toks[bopen].end + pos
+                edits.append((a0, a0 + len(wtext), wrep, None))
+                self.counts['R10'] = self.counts.get('R10', 0) + 1
+                pos = body_text.find(wtext, pos + 1)
+
+        # R11: `recv.starts_with(ARG)` / `recv.ends_with(ARG)` on an identifier receiver (a str / String):
+        # str::starts_with is generic over the unstable Pattern trait and cannot be given a Verus
+        # specification; the call is turned into a call of an external, total function
+        # str_<method>_<lit|char|string>(&recv, ARG) (spec/chars.rs), chosen by the shape of ARG.
+        k = bopen
+        while k < bclose:
+            t = toks[k]
+            if t.kind == 'id' and t.text in ('starts_with', 'ends_with'):
+                pd = prev_sig(toks, k)
+                pr = prev_sig(toks, pd)
+                nx = next_sig(toks, k)
+                if toks[pd].kind == 'p' and toks[pd].text == '.' and toks[pr].kind == 'id' and toks[nx].text == '(':
+                    ppr = prev_sig(toks, pr)
+                    if not (toks[ppr].kind == 'p' and toks[ppr].text == '.'):
+                        cl = match_close(toks, nx)
+                        a1 = next_sig(toks, nx)
+                        kind = 'lit' if toks[a1].kind == 'str' else ('char' if toks[a1].kind == 'char' else 'string')
+                        edits.append((toks[pr].start, toks[nx].end, 'str_%s_%s(&%s, ' % (t.text, kind, toks[pr].text), None))
+                        self.counts['R11'] = self.counts.get('R11', 0) + 1
+                        k = cl
             k += 1
 
         loops = loop_heads(toks, bopen + 1, bclose)
@@ -686,6 +729,8 @@ def build(unit, repo_root, diff=False, canary=False):
     info = {'unit': unit, 'functions': [], 'types': [], 'includes': []}
     out.add('// GENERATED by tools/extract.py from %s -- do not edit' % repo_root, {'k': 'gen'})
     header_done = False
+    directives = [l.strip().split() for l in open(upath).read().split('\n') if l.strip() and not l.strip().startswith('#')]
+    proved_here = set((d[1], d[2]) for d in directives if d[0] in ('prove', 'prove?') and len(d) >= 3)
     for raw in open(upath).read().split('\n'):
         line = raw.strip()
         if not line or line.startswith('#'):
@@ -712,6 +757,8 @@ def build(unit, repo_root, diff=False, canary=False):
             emit_static(repo, out, parts[1], parts[2], counts, info)
         elif cmd == 'macro':
             emit_macro(repo, out, parts[1], parts[2], info)
+        elif cmd in ('stub', 'stub?') and (parts[1], parts[2]) in proved_here:
+            continue   # proved in this very unit: the body's own contract is used
         elif cmd in ('prove', 'stub', 'prove?', 'stub?'):
             # a trailing '?' marks a function that may be absent (e.g. a helper introduced by a repair)
             try:
